@@ -320,26 +320,6 @@ def parser_case(ctx, rng, table):
         ctx.tie_broken("correspondence PySM.parse_indent vs CPython ast.parse (perturbed indentation)", {"lines": lines, "model": mp, "cpython": cp})
 
 
-def ttmodel_case(ctx, table):
-    m = kj.smgen.CTransitionTableModel(table, "NS", NAME)
-    tps = [[s, [[e, [[r[0], r[1], r[2], r[3], r[4]] for r in table if r[0] == s and r[1] == e]] for e in evd]] for s, evd in m.transitionsperstate.items()]
-    # the real transition dictionaries, reduced to (action, guard, next) presence, must describe the same rows
-    real_rows = [[s, [[e, [[tr.get("<<<ACTIONNAME>>>"), tr.get("<<<GUARDNAME>>>"), tr.get("<<<NEXTSTATENAME>>>"), tr.get("<<<STATENAMEIFNEXTSTATE>>>")]
-                           for tr in trs]] for e, trs in evd.items()]] for s, evd in m.transitionsperstate.items()]
-    real = [list(m.states), list(m.events), list(m.actions), list(m.guards),
-            [[a, e] for _k, (a, e) in m.actionsignatures.items()], tps, m.getfirststate()]
-    got = ctx.km.call("tt_model", table)
-    dec = lambda v: [dec(x) for x in v] if isinstance(v, list) else v.decode()  # noqa
-    got = dec(got)
-    if got != real:
-        ctx.tie_broken("correspondence CTransitionTableModel vs Model/TTable.v", {"table": table, "real": real, "model": got})
-        return
-    opt = lambda x: None if smlib.is_none(x) else x  # noqa
-    want_rows = [[s, [[e, [[opt(r[3]), opt(r[4]), opt(r[2]), (r[0] if opt(r[2]) else None)] for r in rows]] for e, rows in evd]] for s, evd in tps]
-    if real_rows != want_rows:
-        ctx.tie_broken("CTransitionTableModel.transitionsperstate does not carry the rows' action/guard/target", {"table": table})
-
-
 def gen_case(rng):
     table = smlib.random_table(rng)
     spec = smlib.random_iface_spec(rng, table, "py", {"StateMachineThread": "0"}, extra_events=rng.choice([0, 0, 1]))
@@ -387,7 +367,7 @@ def run(ctx):
         m = ctx.budget(1500, 20000)
         for i in range(m):
             table = smlib.random_table(ctx.rng, collide=(i % 5 == 0))
-            ttmodel_case(ctx, table)
+            smlib.ttmodel_case(ctx, table)
             parser_case(ctx, ctx.rng, table)
             ctx.case(("parser", i, json.dumps(table)), nontrivial=True)
             ctx.count("ttmodel_and_parser_cases")
